@@ -166,5 +166,8 @@ def run(run):
         cases = K.standard_cases(hand + d1, ["range", "dupint", "str", "dt"], lays)
         cases += K.standard_cases(C.generated_depth2(rng, 2500), ["range"], [("np", 3, True), ("np", 4, False)])
     run_cases(run, "vf.props.C14", "check_case", cases, {"nested": True})
+    from vf.contracts.registry import run_property_specs
+
+    run_property_specs(run, "C14")
     run.assume("per-partition comparison by executing both plans with dask.get; rows inside a shuffled partition compared as a multiset")
     run.trust("vf/rt/corpus.py program catalogue")
